@@ -156,22 +156,28 @@ def readFixed (bits : Bits) (start : Int) (k : Kind) (bitlen : Int) : Except Err
   else if (bits.length : Int) < start + bitlen then .error .read
   else decode k (pySlice bits start (start + bitlen))
 
-/-- `read_fn` of a variable-length dtype (dtypes.py:311-317): `get_fn(bs[start:])`, InterpretError → ReadError. -/
+/-- `l[a:]` for a Python int `a`. -/
+def pyFrom {α} (l : List α) (a : Int) : List α :=
+  let (s, _, _) := Py.sliceIndices (some a) none 1 l.length
+  l.drop s.toNat
+
+/-- `read_fn` of a variable-length dtype (dtypes.py:311-317): `x, length = get_fn(bs[start:])`,
+    InterpretError → ReadError, returns `(x, start + length)`. -/
 def readVar (bits : Bits) (start : Int) (v : VKind) : Except Err (Val × Int) :=
-  let p := start.toNat
+  let sub := pyFrom bits start
   match v with
-  | .ue => match C10.streamRead C10.readUE bits p with
-    | .ok (n, q) => .ok (.int n, q)
-    | .error e => .error e
-  | .se => match C10.streamRead C10.readSE bits p with
-    | .ok (n, q) => .ok (.int n, q)
-    | .error e => .error e
-  | .uie => match C10.streamRead C10.readUIE bits p with
-    | .ok (n, q) => .ok (.int n, q)
-    | .error e => .error e
-  | .sie => match C10.streamRead C10.readSIE bits p with
-    | .ok (n, q) => .ok (.int n, q)
-    | .error e => .error e
+  | .ue => match C10.readUE sub 0 with
+    | .ok (n, l) => .ok (.int n, start + l)
+    | .error _ => .error .read
+  | .se => match C10.readSE sub 0 with
+    | .ok (n, l) => .ok (.int n, start + l)
+    | .error _ => .error .read
+  | .uie => match C10.readUIE sub 0 with
+    | .ok (n, l) => .ok (.int n, start + l)
+    | .error _ => .error .read
+  | .sie => match C10.readSIE sub 0 with
+    | .ok (n, l) => .ok (.int n, start + l)
+    | .error _ => .error .read
 
 /-- One dtype read at `pos`: value and position after it. -/
 def readRDT (bits : Bits) (pos : Int) : RDT → Except Err (Val × Int)
@@ -406,9 +412,8 @@ def runQuery (s : Stream) (q : Query) : Res :=
   | .count1 => .val (.int (s.bits.count true))
   | .uint => if s.bits.isEmpty then .err .value else .val (.int (bitsToNat s.bits))
 
-/-- One operation: the new state of the stream and what the call returned / raised. -/
-def step (s : Stream) (op : Op) : Stream × Res :=
-  if op.isMutator ∧ ¬ s.mutable then (s, .err .type) else          -- not generated: ConstBitStream has no mutators
+/-- One operation on a stream that has it: the new state of the stream and what the call returned / raised. -/
+def stepCore (s : Stream) (op : Op) : Stream × Res :=
   match op with
   | .read t =>
     match readTok s t with
@@ -508,6 +513,10 @@ def step (s : Stream) (op : Op) : Stream × Res :=
   | .xorSelf => (s, .ret (.new 0))
   | .query q => (s, runQuery s q)
 
+/-- One operation.  ConstBitStream has none of the mutators (not generated by the harness). -/
+def step (s : Stream) (op : Op) : Stream × Res :=
+  if op.isMutator && !s.mutable then (s, .err .type) else stepCore s op
+
 /-! ## histories -/
 
 /-- Run a history; observation stops after the first state that leaves `Inv`. -/
@@ -548,6 +557,15 @@ def const_and_or_self (s : Stream) (op : Op) : Bool :=
   match op with
   | .andSelf | .orSelf => !s.mutable && decide (s.pos ≠ 0)
   | _ => false
+
+/-- The two regions in which the position can leave 0..len. -/
+def invSafe (s : Stream) (op : Op) : Bool :=
+  !(readlist_negative_count s op || property_assignment_shrinks s op)
+
+/-- A history none of whose steps (from the state it is applied to) lies in a region that can break `Inv`. -/
+def safeRun : Stream → List Op → Bool
+  | _, [] => true
+  | s, op :: rest => invSafe s op && safeRun (step s op).1 rest
 
 /-- Outside every recorded region. -/
 def safe (s : Stream) (op : Op) : Bool :=
